@@ -42,13 +42,13 @@ NCHUNK = 16
 
 # which case families a property's check runs
 FAMILIES = {
-    "C01": ["dec", "hist"],
+    "C01": ["dec", "hist", "stream"],
     "C02": ["dec"],
     "C03": ["dec", "stream", "txt", "nid", "ck", "hist", "size", "acc", "eq", "deep", "hist@nodebug"],
     "C04": ["dec", "hist", "acc"],
     "C05": ["hist", "size", "acc", "eq", "hist@nodebug"],
     "C06": ["hist", "size", "hist@nodebug"],
-    "C07": ["hist", "size", "acc", "hist@nodebug"],
+    "C07": ["hist", "size", "acc", "hist@nodebug", "dec"],
     "C08": ["hist", "acc", "size", "hist@nodebug"],
     "C09": ["size", "hist", "dec"],
     "C10": ["dec", "hist", "ck"],
@@ -82,6 +82,7 @@ FIELD_OWNERS = [
     (r"acc\.(id|ip4|ip6|tcp4|tcp6|udp4|udp6|udp4s|udp6s|tcp4s|tcp6s|udpr|tcpr|client|get|gd)$", ["C14"]),
     (r"acc\.(text|disp)$", ["C12"]),
     (r"acc\.encs$", ["C04"]),
+    (r"acc\.rtseq$", ["C07"]),
     (r"acc\.(pk|pkkey|nidpk|nidconv)$", ["C10"]),
     (r"acc\.(dbg|conv)$", ["C03"]),
     (r"acc\.xdec$", ["C11"]),
